@@ -10,8 +10,14 @@ package config
 //@ pred cfgOK(cfg *Config) := cfg != nil && (forall k string :: k in cfg.Tasks ==> cfg.Tasks[k] != nil)
 
 // ---- C18: an accepted pipeline has no dangling reference; C08: every stage owns its task
+// sameDefinition(a, b): b is task a as far as its definition goes (what it runs, where, for how long, what it
+// tolerates); the working directory and the two containers are the stage's to override and are stated apart
+//@ pred sameDefinition(a *task.Task, b *task.Task) := a.Commands == b.Commands && a.Before == b.Before && a.After == b.After && a.Condition == b.Condition && a.Context == b.Context && a.Timeout == b.Timeout && a.AllowFailure == b.AllowFailure && a.Interactive == b.Interactive && a.Variations == b.Variations && a.Name == b.Name && a.ExportAs == b.ExportAs
 //@ func buildPipeline
 //@   requires emptyG(g) && cfgOK(cfg)
+//@   callsite AddStage
+//@     requires #C13.stage-runs-the-configured-task def.Task != "" ==> arg0.Task != nil && sameDefinition(cfg.Tasks[def.Task], arg0.Task)
+//@     requires #C08.stage-task-starts-from-the-task-settings def.Task != "" ==> arg0.Task.Env == cfg.Tasks[def.Task].Env && arg0.Task.Variables == cfg.Tasks[def.Task].Variables && (def.Dir == "" ==> arg0.Task.Dir == cfg.Tasks[def.Task].Dir)
 //@   modifies contents(g.nodes), contents(g.from), contents(g.to), cdom, cval
 //@   ensures #C18.error-means-nil result#1 != nil ==> result == nil
 //@   ensures #C18.accepted-wf result#1 == nil ==> result == g && wfS(g) && depsAre(g) && hasWork(g)
@@ -113,6 +119,10 @@ package config
 //@     ghost included = result == nil
 //@   callsite buildPipeline
 //@     requires #C18.inclusion-checked-before-building calls(checkPipelineInclusion) == 1 && included
+// C02 / C03: `pipeline: X` stages of the other pipelines hold the graph registered under X before any pipeline
+// was built; building X must fill that very graph (a replacement would leave the including stages with an
+// empty pipeline that "succeeds" without running anything)
+//@     requires #C02.fills-the-registered-graph arg0 == cfg.Pipelines[k]
 //@     assumepre emptyG(arg0) // every graph registered by the pre-registration loop is a distinct, still empty NewExecutionGraph() (not carried as an invariant yet)
 //@   loop 1 "range def.Contexts"
 //@     invariant #same def == def0 && lc == lc0 && def != nil && lc != nil && cfg != nil && cfg.Contexts != nil && cfg.Tasks != nil && cfg.Watchers != nil && cfg.Pipelines != nil && cfg.Variables != nil
@@ -124,10 +134,12 @@ package config
 //@     invariant #same def == def0 && lc == lc0 && def != nil && lc != nil && cfg != nil && cfg.Contexts != nil && cfg.Tasks != nil && cfg.Watchers != nil && cfg.Pipelines != nil && cfg.Variables != nil
 //@     invariant #C18.tasks-non-nil forall k string :: k in cfg.Tasks ==> cfg.Tasks[k] != nil
 //@   loop 4 "range def.Pipelines"
+//@     invariant #C02.registered forall n string :: $seen[n] ==> (n in cfg.Pipelines)
 //@     invariant #C18.inclusion-checked calls(checkPipelineInclusion) == 1 && included
 //@     invariant #same def == def0 && lc == lc0 && def != nil && lc != nil && cfg != nil && cfg.Contexts != nil && cfg.Tasks != nil && cfg.Watchers != nil && cfg.Pipelines != nil && cfg.Variables != nil
 //@     invariant #C18.tasks-non-nil forall k string :: k in cfg.Tasks ==> cfg.Tasks[k] != nil
 //@   loop 5 "range def.Pipelines"
+//@     invariant #C02.all-registered forall n string :: (n in def.Pipelines) ==> (n in cfg.Pipelines)
 //@     invariant #C18.inclusion-checked calls(checkPipelineInclusion) == 1 && included
 //@     invariant #same def == def0 && lc == lc0 && def != nil && lc != nil && cfg != nil && cfg.Contexts != nil && cfg.Tasks != nil && cfg.Watchers != nil && cfg.Pipelines != nil && cfg.Variables != nil
 //@     invariant #C18.tasks-non-nil forall k string :: k in cfg.Tasks ==> cfg.Tasks[k] != nil
